@@ -69,11 +69,16 @@ Section WithDeflate.
 
   (* ---- the reader's step on what the writer's filter produced *)
 
-  Lemma reader_step_apply1 f x y : apply1 f x = Ok y -> reader_step (descr1 f) y = Ok x.
+  (* the reader refuses an inflated chunk above utils.MaxChunkSize: deflate stages must stay below it *)
+  Definition stage_small (f : filter) (x : bytes) : Prop :=
+    match f with FDeflate _ => N.of_nat (length x) <= max_chunk_size | _ => True end.
+
+  Lemma reader_step_apply1 f x y : stage_small f x -> apply1 f x = Ok y -> reader_step (descr1 f) y = Ok x.
   Proof.
-    destruct f as [l|e| |]; cbn [Filters.apply1]; intro H; unfold Filters.reader_step, reader_apply1;
+    destruct f as [l|e| |]; cbn [Filters.apply1 stage_small]; intros Hs H; unfold Filters.reader_step, reader_apply1;
       cbn [descr1 fid fcd fflags]; cbn [N.eqb Pos.eqb andb negb].
-    - inversion H; subst. unfold inflate_o. now rewrite inflate_deflate.
+    - inversion H; subst. unfold reader_inflate_o. rewrite inflate_deflate.
+      now replace (max_chunk_size <? N.of_nat (length x)) with false by (symmetry; apply N.ltb_ge; exact Hs).
     - destruct (shuffle_ok_inv e x y H) as [[-> ->]|(Hx & He & Hm)]; [reflexivity|].
       rewrite reader_unshuffle_eq by exact He.
       pose proof (shuffle_inv e x He Hm) as R. rewrite H in R. cbn [bind] in R. now rewrite R.
@@ -111,13 +116,21 @@ Section WithDeflate.
       now apply remove1_apply1.
   Qed.
 
+  (* every deflate stage compresses at most MaxChunkSize bytes *)
+  Fixpoint stages_small (fs : list filter) (x : bytes) : Prop :=
+    match fs with
+    | [] => True
+    | f :: r => stage_small f x /\ forall y, apply1 f x = Ok y -> stages_small r y
+    end.
+
   Theorem reader_decodes_writer : forall fs x y,
-    pipeline_apply fs x = Ok y -> reader_apply (descr fs) y = Ok x.
+    stages_small fs x -> pipeline_apply fs x = Ok y -> reader_apply (descr fs) y = Ok x.
   Proof.
-    induction fs as [|f fs IH]; intros x y H.
+    induction fs as [|f fs IH]; intros x y Hs H.
     - cbv in H. inversion H. reflexivity.
     - rewrite pipeline_apply_cons in H. destruct (apply1 f x) as [x1| | |] eqn:E; try discriminate.
-      cbn [bind] in H. cbn [descr map]. rewrite reader_apply_cons. fold (descr fs). rewrite (IH x1 y H). cbn [bind].
+      destruct Hs as [Hs1 Hs2].
+      cbn [bind] in H. cbn [descr map]. rewrite reader_apply_cons. fold (descr fs). rewrite (IH x1 y (Hs2 x1 E) H). cbn [bind].
       now apply reader_step_apply1.
   Qed.
 
@@ -232,12 +245,12 @@ Proof.
   rewrite (N.mod_small id), (N.mod_small NL), (N.mod_small flags), (N.mod_small NCD) by (subst NL NCD; unfold wrap16; lia).
   rewrite ENL, ENCD in *.
   (* the name *)
-  set (ppad := if nl mod 8 =? 0 then nl else wrap16 (nl + (8 - nl mod 8))).
+  set (ppad := if nl mod 8 =? 0 then nl else nl + (8 - nl mod 8)).
   assert (Hpad : 0 < nl -> padded = ppad /\ N.of_nat (length name) <= padded).
   { intro Hpos. subst padded ppad. rewrite ENL. replace (0 <? nl) with true by (symmetry; apply N.ltb_lt; lia).
     unfold wrap16. rewrite (N.mod_small (nl + 7)) by lia. rewrite (N.mod_small ((nl + 7) / 8 * 8)) by lia.
     destruct (N.eqb_spec (nl mod 8) 0); [split; lia|].
-    rewrite (N.mod_small (nl + (8 - nl mod 8))) by lia. split; lia. }
+    split; lia. }
   destruct (N.ltb_spec 0 nl) as [Hpos|Hzero].
   - destruct (Hpad Hpos) as [Epad Hle].
     assert (Enp : namepart = name ++ repeat 0 (N.to_nat padded - length name)).
@@ -325,11 +338,11 @@ Qed.
    for every length: the decoder returns 36 zeros instead of the 40 that were written. *)
 Definition refuted_fs : list filter := [FFletcher; FLzf].
 Definition refuted_x : bytes := repeat 0 40.
-Definition refuted_stored : bytes := [1; 0; 0; 224; 0; 33].
+Definition refuted_stored : bytes := [1; 0; 0; 224; 33; 0].
 
 Lemma fletcher_inner_refuted :
   pipeline_apply (fun _ x => x) refuted_fs refuted_x = Ok refuted_stored /\
-  nth 5 refuted_stored 0 = 33 /\
-  pipeline_remove (fun x => Some x) refuted_fs (upd 5 29 refuted_stored) = Ok (repeat 0 36) /\
-  reader_apply (fun x => Some x) (descr refuted_fs) (upd 5 29 refuted_stored) = Ok (repeat 0 36).
+  nth 4 refuted_stored 0 = 33 /\
+  pipeline_remove (fun x => Some x) refuted_fs (upd 4 29 refuted_stored) = Ok (repeat 0 36) /\
+  reader_apply (fun x => Some x) (descr refuted_fs) (upd 4 29 refuted_stored) = Ok (repeat 0 36).
 Proof. vm_compute. repeat split; reflexivity. Qed.
